@@ -3,6 +3,7 @@ C09 — find_links returns exactly the links neighbors() would follow from a to 
 
 Case: {"g": graph desc, "f": edge-filter spec | None, "unlink": [a, b]}
 """
+from eglib import h
 from hypothesis import strategies as st
 
 from eglib import graphs
@@ -97,7 +98,7 @@ def fl_table(vs, ls, ff1, li, idx=None):
             for ds in (True, False):
                 for u in UNKS:
                     try:
-                        t[(a, b, ds, u)] = frozenset(li.get(id(l), "?") for l in helpers.find_links(vs[a], vs[b], ds, u, ff1))
+                        t[(a, b, ds, u)] = frozenset(li.get(id(l), "?") for l in h.find_links(vs[a], vs[b], ds, u, ff1))
                     except NotImplementedError:
                         t[(a, b, ds, u)] = "NIE"
                     except graphs.FilterMisuse as e:
@@ -153,8 +154,8 @@ def _check_world(case, vs, ls, query_only):
         for v in vs:
             for d in (0, 1, 2):
                 try:
-                    helpers.neighbors(v, d)
-                    helpers.neighbors(v, d, 1)
+                    h.neighbors(v, d)
+                    h.neighbors(v, d, 1)
                 except NotImplementedError:
                     pass
     idx = pair_indices(case, vs)
@@ -193,7 +194,7 @@ def _check_world(case, vs, ls, query_only):
                     if got == "NIE":
                         continue
                     try:
-                        nb = helpers.neighbors(vs[a], FORWARD if ds else ANY, u, ff2)
+                        nb = h.neighbors(vs[a], FORWARD if ds else ANY, u, ff2)
                     except NotImplementedError:
                         continue
                     cnt = sum(1 for x in nb if x is vs[b])
